@@ -45,7 +45,9 @@ def main(tier, replay=None, selftest=False):
             chunk = cs[ch:ch + CH]
             types, ofields, infields, vars_ = [], [], [], []
             for k, c in enumerate(chunk):
-                types.append({"kind": "ENUM", "name": "E%d" % k, "values": sorted(c["values"])})
+                vals = sorted(c["values"])
+                types.append({"kind": "ENUM", "name": "E%d" % k, "values": vals,
+                              "deprecated_values": {vals[0]: {"reason": None}} if k % 2 == 0 else {vals[-1]: {"reason": "old"}}})
                 ofields.append({"name": "e%d" % k, "type": tr("E%d" % k), "dep": None})
                 infields.append({"name": "f%d" % k, "type": tr("E%d" % k)})
                 vars_.append("$v%d: E%d" % (k, k))
@@ -55,8 +57,12 @@ def main(tier, replay=None, selftest=False):
                           "fields": [{"name": "o", "type": tr("Obj", ["R"]), "dep": None}]})
             schema = {"types": types, "roots": {"query": "Query"}, "explicit_roots": False}
             tag = "%s_%d" % (norm, ch // CH)
-            sp = os.path.join(workdir, "s_%s.graphql" % tag)
-            vlib.write_if_changed(sp, render.sdl(schema))
+            if (ch // CH) % 2 == 0:
+                sp = os.path.join(workdir, "s_%s.json" % tag)
+                vlib.write_if_changed(sp, render.introspection_json(schema))
+            else:
+                sp = os.path.join(workdir, "s_%s.graphql" % tag)
+                vlib.write_if_changed(sp, render.sdl(schema))
             q = "query MyOp(%s, $inp: In) {\n  o {\n%s\n  }\n}\n" % (
                 ", ".join(vars_), "\n".join("    e%d" % k for k in range(len(chunk))))
             jobs.append({"id": tag, "schema_path": sp, "query": q, "want_tokens": True,
